@@ -334,7 +334,7 @@ def relevant_vars(f, extra_calls=()):
 
 
 def explore(f, start_block, start_idx, subject, value, classify_return, max_states=40000, origin_callid=None, from_entry=True,
-            terminal_calls=None, forbidden_calls=()):
+            terminal_calls=None, forbidden_calls=(), subject_return_ok=True):
     """Walk every path from the function entry through the site (start_block,start_idx); after the site assume
     subject == value.  Branch conditions are decided (a) under the assumption when they mention the subject,
     (b) by the facts collected from the branches already taken on this path (correlated branches: `edx < n` at the
@@ -368,17 +368,21 @@ def explore(f, start_block, start_idx, subject, value, classify_return, max_stat
         b = f.blocks[bid]
         stop = False
         envd = None
+        # `fresh`: still in the straight-line code right after this execution of the call (where its result is stored);
+        # when the same call site is reached again in a loop, its assignment overwrites the assumed result
+        fresh = (not from_entry) and bid == start_block.id and pos == start_idx + 1 and len(path) == 1
         for i in range(pos, len(b.ev)):
             e = b.ev[i]
             if phase == 0 and bid == start_block.id and i == start_idx:
                 phase = 1
+                fresh = True
                 continue
             if e["k"] == "return":
                 if phase == 1:
-                    if not lost and subject.returned_by(e, aliases):
+                    if subject_return_ok and not lost and subject.returned_by(e, aliases):
                         stop = True
                         break
-                    if e.get("expr") and "rval" not in f.ret_type and not f.ret_type.rstrip().endswith("*"):
+                    if subject_return_ok and e.get("expr") and "rval" not in f.ret_type and not f.ret_type.rstrip().endswith("*"):
                         rv = eval_under(e["expr"]["tree"], None if lost else subj, value, dict(env))
                         if rv is not None and rv < 0:
                             stop = True
@@ -457,7 +461,7 @@ def explore(f, start_block, start_idx, subject, value, classify_return, max_stat
                 elif e["k"] == "decl" and "init" in e:
                     tgt, src_tree = e["id"], e["init"]["tree"]
                 if tgt is not None:
-                    if origin_callid is not None and _stores_call(e, origin_callid):
+                    if fresh and origin_callid is not None and _stores_call(e, origin_callid):
                         continue
                     rr = strip_casts(src_tree)
                     if is_var(rr) and rr[1] in aliases:
@@ -467,7 +471,7 @@ def explore(f, start_block, start_idx, subject, value, classify_return, max_stat
                     subj = subject.pred(aliases)
                 elif e["k"] == "assign" and e.get("base_id") in aliases and not e.get("deref") and e.get("op") != "|=" \
                         and (not subject.field or e.get("field") == subject.field):
-                    if not (origin_callid is not None and _stores_call(e, origin_callid)):
+                    if not (fresh and origin_callid is not None and _stores_call(e, origin_callid)):
                         aliases = aliases - {e["base_id"]}
                         subj = subject.pred(aliases)
                 elif e["k"] == "call":
